@@ -708,6 +708,37 @@ class Intervals:
                             r"core::ops::range::Range(Inclusive)?<A>>::(next|next_back|size_hint|nth)$|"
                             r"^<core::iter::adapters::rev::Rev<I> as core::iter::traits::iterator::Iterator>::next$")
 
+    def _mut_ref_used_only_by_calls(self, l, depth=0):
+        if depth > 4:
+            return False
+        us = self._uses_of(l)
+        if not us:
+            return True
+        for k, t in us:
+            if k == "call":
+                continue
+            if k == "store":
+                continue       # `(*l).x = ..`: the store itself kills what it overlaps
+            if k == "ref":
+                # a reborrow `x = &mut (*l)..` / `&(*l)..`
+                if t[2][0] in ("ref", "raw") and t[2][2][0] == l and t[2][2][1] and t[2][2][1][0] == "*" and not t[1][1]:
+                    mut = (t[2][1] == "mut") if t[2][0] == "ref" else ("Mut" in str(t[2][1]))
+                    if not mut or self._mut_ref_used_only_by_calls(t[1][0], depth + 1):
+                        continue
+                return False
+            if k == "stmt":
+                # moved into another local: follow it; anything else (captured, stored) is an escape
+                if t[2][0] == "use" and not t[1][1] and op_local(t[2][1]) == l and self._mut_ref_used_only_by_calls(t[1][0], depth + 1):
+                    continue
+                # reads through the pointer `(*l).f` as an operand are fine
+                if t[2][0] in ("use", "bin", "un", "cast") and op_local(t[2][1] if t[2][0] == "use" else t[2][2]) != l:
+                    ops = [t[2][1]] if t[2][0] == "use" else ([t[2][2], t[2][3]] if t[2][0] == "bin" else [t[2][2]])
+                    if all(op_local(o) != l for o in ops):
+                        continue
+                return False
+            return False
+        return True
+
     def _only_feeds_range_next(self, ref_local, depth=0):
         us = self._uses_of(ref_local)
         if not us or depth > 4:
@@ -926,11 +957,19 @@ class Intervals:
                     root, path, exact = r
                     keep_rng = (not path) and root in st.rngs and self._only_feeds_range_next(l)
                     saved = st.rngs.get(root) if keep_rng else None
-                    if not path:
+                    # a `&mut` that is only ever handed to calls / written through is killed where it is *used* (the
+                    # call or the store), not where it is created: nothing can read the place by path in between
+                    # except under a two-phase borrow, where the place is still unmodified
+                    lazy = self.body.single_def(l) is not None and self._ptr_target(l) is not None and \
+                        self._mut_ref_used_only_by_calls(l)
+                    slice_like = self.body.locals[l][0].startswith(("&mut [", "*mut ["))
+                    if lazy:
+                        pass
+                    elif not path:
                         if not keep_rng:
                             st.kill(root)
                     else:
-                        self._kill_overlap(st, root, path, exact, whole_container=True)
+                        self._kill_overlap(st, root, path, exact, whole_container=not slice_like)
                     if saved is not None:
                         st.rngs[root] = saved
         st.kill(l)
@@ -1182,7 +1221,7 @@ class Intervals:
                         continue
                     st.kill(root)
                 else:
-                    self._kill_overlap(st, root, path, exact, whole_container=True)
+                    self._kill_overlap(st, root, path, exact, whole_container=not aty.startswith(("&mut [", "*mut [")))
             elif l in st.rngs and not (short in ("into_iter", "rev", "clone", "len", "is_empty")):
                 pass
         if dest[1]:
@@ -1787,6 +1826,14 @@ class Intervals:
         if t is not None and lt is not None and self.has_rel(st, t, "<=", lt):
             return True
         return False
+
+    def lt_len(self, st, op, lt, lr):
+        """operand < length (term lt, interval lr)?"""
+        r = self.rng(st, op)
+        if r is not None and r[1] < lr[0]:
+            return True
+        t = self.term_of(st, op)
+        return t is not None and lt is not None and self.has_rel(st, t, "<", lt)
 
     def le(self, st, oa, ob):
         a, b = self.rng(st, oa), self.rng(st, ob)
